@@ -343,6 +343,11 @@ def hook(ex, func, argv, frame):
                 return True, and_(gt(s.len(), 0), fn(byte_at(s, 0)), lt(byte_at(s, 0), 128))
             last = s.buf.at(sub(s.end, 1))
             return True, and_(gt(s.len(), 0), fn(last), lt(last, 128))
+    if g in ('core::str::<impl str>::trim_start_matches', 'core::str::<impl str>::trim_end_matches') and (f.endswith('::<&str>') or f.endswith('::<&&str>')):
+        pat = deref(a[1])
+        if isinstance(pat, Str) and pat.concrete() and len(pat.bytes()) == 1 and pat.bytes()[0] < 128:
+            # a one-byte ASCII literal pattern behaves like the char pattern
+            return True, models.dispatch(ex, f[:f.rindex('::<')] + '::<char>', [a[0], pat.bytes()[0]], frame)
     if g == 'core::str::<impl str>::trim_end_matches' and f.endswith('::<&str>'):
         s, pat = deref(a[0]), deref(a[1])
         if pat.concrete() and 0 < len(pat.bytes()) <= 2:
